@@ -163,18 +163,21 @@ Definition de_u8 (b : bytes) (pos : N) : R (N * N) :=
   Ok (match l1 with c :: _ => bn c | [] => 0 end, p').
 
 (* dbus::Deserializer::deserialize_str.  [wide] = 4-byte length (`s`, `o`), else 1-byte length (`g`, the signature of a variant).
-   The trailing NUL is skipped without being looked at or bounds-checked (pos += 1).
-   Result: the string, the absolute offset of its first byte, the position after. *)
+   The trailing NUL must be present and zero (next_slice(1)?[0] != 0 => error; fix e43e6421).
+   Result: the string, the absolute offset of its first byte, the position after the terminator. *)
 Definition de_str (wide : bool) (e : endian) (b : bytes) (pos : N) : R (bytes * N * N) :=
   let* (n, p) := (if wide then de_u32 e b pos else de_u8 b pos) in
   let* (s, p') := next_slice b p n in
   if has_nul s then Err EData
-  else if utf8_valid s then Ok (s, p, p' + 1) else Err EData.
+  else
+    let* (z, p2) := next_slice b p' 1 in
+    if negb (all_zero z) then Err EData
+    else if utf8_valid s then Ok (s, p, p2) else Err EData.
 
 (* ---------- header field values ---------- *)
 Inductive fval :=
 | FStr (s : bytes) (start : N)       (* Value::Str, borrowed from the message at [start] *)
-| FPath (s : bytes) (start : N)      (* Value::ObjectPath (ObjectPath::from_str_unchecked: not validated) *)
+| FPath (s : bytes) (start : N)      (* Value::ObjectPath (validated by ObjectPath::try_from; fix c60ac51c) *)
 | FSig (g : sig)                     (* Value::Signature *)
 | FU32 (n : N).                      (* Value::U32 *)
 
@@ -198,11 +201,15 @@ Definition de_variant (e : endian) (b : bytes) (pos : N) : R (fval * N) :=
             match parse_sig (takeN sig_len (dropN (sig_start + 1) b)) with
             | None => Err EData
             | Some vs =>
-                if len b <? value_start then Err EData        (* subslice(bytes, value_start..) *)
+                (* exactly one complete type (fix 73d38c84): not Unit, and its string form has the length on the wire *)
+                if (match vs with SUnit => true | _ => false end) || negb (len (show vs) =? sig_len) then Err EData
+                else if len b <? value_start then Err EData   (* subslice(bytes, value_start..) *)
                 else
                   match vs with
                   | SStr => let* (s, st, p2) := de_str true e b value_start in Ok (FStr s st, p2)
-                  | SObjPath => let* (s, st, p2) := de_str true e b value_start in Ok (FPath s st, p2)
+                  | SObjPath =>
+                      let* (s, st, p2) := de_str true e b value_start in
+                      if validate_object_path s then Ok (FPath s st, p2) else Err EData
                   | SSig =>
                       let* (s, _, p2) := de_str false e b value_start in
                       match parse_sig s with Some g => Ok (FSig g, p2) | None => Err EData end
@@ -232,7 +239,7 @@ Definition fields_empty : fields :=
      f_sender := None; f_sig := SUnit; f_fds := None |}.
 
 (* FieldsVisitor::visit_seq: `match code { ... X::try_from(value) ... }`.  InterfaceName, MemberName, ErrorName and
-   UniqueName convert through #[derive(Value)] (no validation); ObjectPath arrives unchecked; BusName validates. *)
+   UniqueName convert through #[derive(Value)] (no validation); ObjectPath was validated by the Value decoder; BusName validates. *)
 Definition set_field (fs : fields) (code : N) (v : fval) : R fields :=
   match code, v with
   | 1, FPath s st => Ok {| f_path := Some (s, st); f_iface := f_iface fs; f_member := f_member fs; f_errname := f_errname fs; f_reply := f_reply fs; f_dest := f_dest fs; f_sender := f_sender fs; f_sig := f_sig fs; f_fds := f_fds fs |}
